@@ -674,9 +674,11 @@ func (w *World) streamOp(ci int, conn *rpc.Conn, op *Op) {
 			if w.P.Codec == "pb" {
 				arg = (*PBMsg)(&m)
 			}
+			rec.Readers++
 			rec.ClientBlocked = true
 			err := rec.stream.ReadMessage(nil, arg)
-			rec.ClientBlocked = false
+			rec.Readers--
+			rec.ClientBlocked = rec.Readers > 0
 			if err != nil {
 				rec.ClientReadErr = err.Error()
 				rec.ReadErrAtTeardown = w.TearingDown
